@@ -53,6 +53,49 @@ theorem retries_ge_configured_counterexample : ¬ RetriesGeConfigured := by
   have := h ⟨5, false⟩ [ev1] [false] [.stop] (by decide)
   revert this; decide
 
+/-! ## growing pauses -/
+
+/-- **pauses_follow_own_schedule.** The n-th pause of an `Out` call is the n-th answer of that
+    call's own back-off (built and `Reset()` inside the call), so if the library follows its
+    schedule (`BacksWellFormed`: the n-th answer lies within ±50 % of `min·multⁿ`, capped), the n-th
+    pause of every batch lies in the interval of that batch's *own* retry index n — independent of
+    what other workers do with other batches. -/
+theorem pauses_follow_own_schedule (minRet mult : Nat) (cfg : RCfg) (evs : List Ev) (sends : List Bool)
+    (backs : List BackOff) (hw : BacksWellFormed minRet mult backs) (n d : Nat)
+    (hn : (sleepsOf (out cfg evs sends backs 0).log)[n]? = some d) :
+    pauseOk minRet mult n d = true := by
+  obtain ⟨r, h1, h2⟩ := sleeps_prefix cfg evs sends backs 0
+  rw [h1] at hn
+  simp only [List.getElem?_map, List.getElem?_take] at hn
+  split at hn
+  · rename_i hlt
+    cases hb : backs[n]? with
+    | none => simp [hb] at hn
+    | some b =>
+      simp [hb] at hn
+      cases b with
+      | dur d' => simp at hn; subst hn; exact hw n d' hb
+      | stop =>
+        exfalso
+        have : BackOff.stop ∈ backs.take r := by
+          rw [List.mem_iff_getElem?]
+          exact ⟨n, by simp [List.getElem?_take, hlt, hb]⟩
+        exact h2 _ this rfl
+  · simp at hn
+
+/-- with the outputs' multiplier 2 the intervals two retries apart are disjoint: pauses grow -/
+theorem pause_intervals_grow (minRet n : Nat) (h6 : interval minRet 2 n ≥ 8)
+    (hcap : interval minRet 2 n * 4 < maxIntervalNs) :
+    pauseHi minRet 2 n < pauseLo minRet 2 (n + 2) := by
+  have h1 : interval minRet 2 (n + 1) = interval minRet 2 n * 2 := by
+    simp only [interval]; split <;> omega
+  have h2 : interval minRet 2 (n + 2) = interval minRet 2 n * 4 := by
+    show (let i := interval minRet 2 (n + 1); if i * 2 ≥ maxIntervalNs then maxIntervalNs else i * 2) = _
+    simp only [h1]; split <;> omega
+  simp only [pauseHi, pauseLo, h2]; omega
+
+example : pauseOk 1000000 2 2 4755701 = true ∧ pauseOk 1000000 2 2 1452140 = false := by decide
+
 /-! ## no commit while retrying -/
 
 /-- **no_commit_while_retrying.** While `Out` has not returned for a batch that has something to
